@@ -322,7 +322,7 @@ namespace
       int valid_variants = 0;   // ops that turn a valid file into another valid file
       for(int k = 0; k < nops; ++k)
       {
-        int kind = int(sim::cfg_weighted(("fault_kind" + std::to_string(k)).c_str(), {4, 2, 1, 1, 3, 3, 3, 2, 2, 2, 2, 3, 2, 3, 2, 2, 1, 2, 2}));
+        int kind = int(sim::cfg_weighted(("fault_kind" + std::to_string(k)).c_str(), {4, 2, 1, 1, 3, 3, 3, 2, 2, 2, 2, 3, 2, 3, 2, 2, 1, 2, 2, 2}));
         int bias = int(sim::cfg_int(("fault_bias" + std::to_string(k)).c_str(), 0, 1));
         switch(kind)
         {
@@ -345,6 +345,7 @@ namespace
         case 16: part_make_empty(bf, log); break;
         case 17: chart_index_out_of_range(bf, log); break;
         case 18: if(part_parent_topology(bf, log)) ++valid_variants; break;
+        case 19: if(parts_before_mesh(bf, log)) ++valid_variants; break;
         }
       }
       size_t eof_limit = size_t(-1);
@@ -882,6 +883,32 @@ namespace
       b.assign(s.begin(), s.end());
       log.ops += "PART_PARENT_TOPOLOGY ";
       sim::count_fault("PART_PARENT_TOPOLOGY");
+      return true;
+    }
+
+    // the mesh parts of the file moved in front of the <Mesh> element: the reader takes the elements in any order (it only
+    // checks mappings against the root mesh "if it has already been parsed") - same content, other author
+    static bool parts_before_mesh(Bytes& b, simfs::FaultLog& log)
+    {
+      std::string s(b.begin(), b.end());
+      size_t m = s.find("<Mesh ");
+      if(m == std::string::npos) return false;
+      size_t ml = s.rfind('\n', m); ml = (ml == std::string::npos) ? 0 : ml + 1;
+      auto parts = mesh_parts(s);
+      if(parts.empty() || parts.front().first < m) return false;
+      // only parts that take nothing from the parent at parse time can be read before it
+      std::string moved;
+      for(auto it = parts.rbegin(); it != parts.rend(); ++it)
+      {
+        size_t ls = s.rfind('\n', it->first); ls = (ls == std::string::npos) ? 0 : ls + 1;
+        size_t le = s.find('\n', it->second); le = (le == std::string::npos) ? s.size() : le + 1;
+        moved = s.substr(ls, le - ls) + moved;
+        s.erase(ls, le - ls);
+      }
+      s.insert(ml, moved);
+      b.assign(s.begin(), s.end());
+      log.ops += "PARTS_BEFORE_MESH ";
+      sim::count_fault("PARTS_BEFORE_MESH");
       return true;
     }
 
